@@ -88,6 +88,7 @@ def check_op(case):
         eb = base.exc_brief(e)
         del e
         return ("exception", "forward raised %s: %s" % eb)
+    _LAST["creator"] = type(getattr(out, "creator", None)).__name__
     model_in = [np.asarray(a.data if isinstance(a, mg.Tensor) else a, dtype=np.float64) for a in args]
     with np.errstate(all="ignore"):
         ref = np.asarray(case["shadow"](*model_in))
@@ -116,8 +117,9 @@ def check_op(case):
         conv = (case.get("conv") or {}).get(i)
         # a convention is tabulated as the elementwise derivative; the expected gradient is g times it
         exp = conv * (np.broadcast_to(gm, conv.shape) if gm.shape == conv.shape else 1.0) if conv is not None else cs_expected(case["shadow"], model_in, i, gm)
-        if case.get("twice"):
-            pass  # the single operand appears in several argument slots: the shadow already repeats it
+        if case.get("zero_where_input_zero"):
+            # |x|**ord (ord > 1) has derivative exactly 0 at x == 0; the complex step is not accurate at that kink
+            exp = np.where(model_in[i] == 0, 0.0, exp)
         got = a.grad
         if got is None:
             if np.any(exp != 0) or a.size == 0 and False:
@@ -133,6 +135,7 @@ def check_op(case):
 
 
 _NN = {}
+_LAST = {"creator": "?"}
 
 
 def check_nnet(name, dt):
@@ -146,6 +149,7 @@ def check_nnet(name, dt):
         return ("skip", "no differentiable-operand model")
     ins, call = _NN["cat"][name](dt)
     out = call(**ins)
+    _LAST["creator"] = type(out.creator).__name__
     names = list(ins)
     model_in = [np.asarray(ins[n].data, dtype=np.float64) for n in names]
     ref = np.asarray(sh(*model_in))
@@ -184,7 +188,7 @@ def nontrivial(cell):
 
 
 def outcome(cell):
-    return "ok:" + (cell[2].split("(")[0].split(" ")[0] if cell[0] == "op" else "nnet")
+    return "ok creator=" + _LAST["creator"]
 
 
 def signature(cell, f):
@@ -192,9 +196,32 @@ def signature(cell, f):
     return base.stable_hash((nm, f[0]))
 
 
-def uncovered():
-    """differentiable Operation subclasses of the package that no catalogue case exercises (informational)"""
-    return []
+def uncovered(total, plan):
+    """differentiable Operation subclasses of the package that no case produced as a creator (informational:
+    not a violation - the op may be fine - but it says what the catalogue does not reach)"""
+    import importlib
+    import pkgutil
+
+    import mygrad
+    from mygrad.operation_base import Operation
+
+    for m in pkgutil.walk_packages(mygrad.__path__, "mygrad."):
+        try:
+            importlib.import_module(m.name)
+        except Exception:
+            pass
+    allops = set()
+    stack = [Operation]
+    while stack:
+        c = stack.pop()
+        for sub in c.__subclasses__():
+            stack.append(sub)
+            if not getattr(sub, "__abstractmethods__", None):
+                allops.add(sub.__name__)
+    seen = {k.split("creator=")[1] for k in total.outcomes if "creator=" in k}
+    plan["bounds"]["operation_classes_total"] = len(allops)
+    plan["bounds"]["operation_classes_exercised"] = sorted(seen & allops)
+    plan["bounds"]["operation_classes_not_exercised_directly"] = sorted(allops - seen)
 
 
 def plan(tier, seed):
@@ -202,7 +229,7 @@ def plan(tier, seed):
     me = __import__("harness.C02", fromlist=["x"])
     n = sum(1 for _ in ops.all_cases(tier))
     return conf.make_plan(
-        me, tier, seed, nchunks=64,
+        me, tier, seed, nchunks=64, post=uncovered,
         rule="every case of the op catalogue (%d cases) and of the nnet catalogue (%d calls); each case = (operation, option combination, operand "
         "shapes / layouts / kinds); gradient compared element-wise with g.J from complex-step columns of a functional NumPy model" % (n, len(nnet_calls.NAMES)),
         bounds={"op_cases": n, "nnet_calls": len(nnet_calls.NAMES)},
